@@ -49,6 +49,23 @@ def sh(cmd, cwd=None, timeout=None, env=None, capture=True):
     return p.returncode, (p.stdout or "")
 
 
+def sh_all(cmds, timeout=None, what="generator"):
+    """run independent recorder processes side by side (one per build profile / flavour)"""
+    e = dict(os.environ)
+    e["CARGO_NET_OFFLINE"] = "true"
+    ps = [subprocess.Popen(c, env=e, stdout=subprocess.DEVNULL, stderr=subprocess.PIPE, text=True) for c in cmds]
+    for c, p in zip(cmds, ps):
+        try:
+            _, err = p.communicate(timeout=timeout)
+        except subprocess.TimeoutExpired:
+            for q_ in ps:
+                q_.kill()
+            raise ToolError("timeout after %ss: %s" % (timeout, " ".join(c)[:200]))
+        if p.returncode != 0:
+            log((err or "")[-2000:])
+            raise ToolError("%s failed: %s" % (what, " ".join(c)[:200]))
+
+
 # --------------------------------------------------------------------------------------------
 # build
 
@@ -472,24 +489,24 @@ def huffman_property(out, q, seed, why_filter):
         os.remove(j)
 
 
-def contract_trace_stage(out, props, q, seed, subjects=None, runs=None):
+def contract_trace_stage(out, props, q, seed, subjects=None, runs=None, long=None):
     """impl -> spec: seeded random histories of the real regions validated against TraceContract.tla;
     only rejections that belong to one of `props` count."""
     wd = os.path.join(WORK, out.prop)
     os.makedirs(wd, exist_ok=True)
     jobs = []
+    cmds = []
     for prof in ("dev", "release"):
         tr = os.path.join(wd, "contract.%s.ndjson" % prof)
         args = [BIN[prof], "drive", "--seed", str(seed * 100 + 11), "--runs", str((3 if q else 40) if runs is None else runs), "--steps", str(60 if q else 120),
-                "--long", str(1500 if q else 20000), "--out", tr]
+                "--long", str((1500 if q else 20000) if long is None else long)]
         if subjects:
             args += ["--subjects", ",".join(sorted(subjects))]
-        rc, o = sh(args, timeout=3000)
-        if rc != 0:
-            log(o[-2000:])
-            raise ToolError("drive failed")
+        args += ["--out", tr]
+        cmds.append(args)
         jobs.append({"label": prof, "trace": tr, "scenarios": tr, "profile": profile_label(prof), "replay": "regen",
                      "sigprefix": "contract", "regen": {"args": args[1:-1], "module": "TraceContract.tla", "cfg": "TraceContract.cfg"}})
+    sh_all(cmds, timeout=3000, what="drive")
     validate_traces(out, "contract-traces", "TraceContract.tla", os.path.join(SPEC, "TraceContract.cfg"), jobs,
                     why_filter=None, prop_filter=set(props), timeout=3000)
     for j in glob.glob(os.path.join(wd, "*.ndjson")):
@@ -501,16 +518,15 @@ def alloc_property(out, q, seed):
     os.makedirs(wd, exist_ok=True)
     jobs = []
     # the allocator is only counted in the release profile as well: both profiles must obey the ledger
+    cmds = []
     for prof in ("dev", "release"):
         tr = os.path.join(wd, "alloc.%s.ndjson" % prof)
         args = [BIN[prof], "alloc-run", "--seed", str(seed * 100 + 17), "--runs", str(6 if q else 40), "--growth",
                 str(10 if q else 14), "--out", tr]
-        rc, o = sh(args, timeout=3000)
-        if rc != 0:
-            log(o[-2000:])
-            raise ToolError("alloc-run failed")
+        cmds.append(args)
         jobs.append({"label": prof, "trace": tr, "scenarios": tr, "profile": profile_label(prof), "replay": "regen",
                      "sigprefix": "alloc", "regen": {"args": args[1:-1], "module": "TraceAlloc.tla", "cfg": "TraceAlloc.cfg"}})
+    sh_all(cmds, timeout=3000, what="alloc-run")
     validate_traces(out, "alloc-traces", "TraceAlloc.tla", os.path.join(SPEC, "TraceAlloc.cfg"), jobs, timeout=3000)
     for j in glob.glob(os.path.join(wd, "*.ndjson")):
         os.remove(j)
@@ -591,15 +607,17 @@ def coded_columns_stage(out, q, seed, err_filter):
     wd = os.path.join(WORK, out.prop)
     os.makedirs(wd, exist_ok=True)
     jobs = []
-    for prof in ("dev", "release"):
-        tr = os.path.join(wd, "codedcols.%s.ndjson" % prof)
-        args = [BIN[prof], "huffcols-run", "--seed", str(seed * 100 + 31), "--runs", str(300 if q else 3000), "--out", tr]
-        rc, o = sh(args)
-        if rc != 0:
-            raise ToolError("huffcols-run failed")
-        jobs.append({"label": "codedcols-" + prof, "trace": tr, "scenarios": tr, "profile": profile_label(prof),
-                     "replay": "regen", "sigprefix": "coded-columns",
-                     "regen": {"args": args[1:-1], "module": "TraceCodedColumns.tla", "cfg": "TraceCodedColumns.cfg"}})
+    for fl in ("region", "stack"):
+        for prof in ("dev", "release"):
+            tr = os.path.join(wd, "codedcols.%s.%s.ndjson" % (fl, prof))
+            args = [BIN[prof], "huffcols-run", "--seed", str(seed * 100 + 31), "--runs", str(300 if q else 3000)] + \
+                   (["--as-stack"] if fl == "stack" else []) + ["--out", tr]
+            rc, o = sh(args)
+            if rc != 0:
+                raise ToolError("huffcols-run failed")
+            jobs.append({"label": "codedcols-%s-%s" % (fl, prof), "trace": tr, "scenarios": tr, "profile": profile_label(prof),
+                         "replay": "regen", "sigprefix": "coded-columns" + ("-stack" if fl == "stack" else ""),
+                         "regen": {"args": args[1:-1], "module": "TraceCodedColumns.tla", "cfg": "TraceCodedColumns.cfg"}})
     validate_traces(out, "coded-columns-traces", "TraceCodedColumns.tla", os.path.join(SPEC, "TraceCodedColumns.cfg"), jobs,
                     err_filter=err_filter)
     for j in glob.glob(os.path.join(wd, "*.ndjson")):
@@ -790,16 +808,15 @@ def ic_walk_stage(out, q, seed, err_filter, name="index-walks"):
     wd = os.path.join(WORK, out.prop)
     os.makedirs(wd, exist_ok=True)
     jobs = []
+    cmds = []
     for prof in ("dev", "release"):
         tr = os.path.join(wd, "%s.%s.ndjson" % (name, prof))
         args = [BIN[prof], "ic-walk", "--seed", str(seed * 100 + 41), "--runs", str(24 if q else 120), "--len",
                 str(4000 if q else 20000), "--out", tr]
-        rc, o = sh(args, timeout=3000)
-        if rc != 0:
-            log(o[-2000:])
-            raise ToolError("ic-walk failed")
+        cmds.append(args)
         jobs.append({"label": "walk-" + prof, "trace": tr, "scenarios": tr, "profile": profile_label(prof), "replay": "regen",
                      "sigprefix": "index-walk", "regen": {"args": args[1:-1], "module": "TraceIC.tla", "cfg": "TraceIC.cfg"}})
+    sh_all(cmds, timeout=3000, what="ic-walk")
     validate_traces(out, name + "-traces", "TraceIC.tla", os.path.join(SPEC, "TraceIC.cfg"), jobs, timeout=3000,
                     err_filter=walk_filter(err_filter))
     for j in glob.glob(os.path.join(wd, "*.ndjson")):
@@ -890,6 +907,9 @@ def run_property(prop, tier, seed):
         stack_stage(out, "flatstack", prop, stack_names(), 4 if q else 5, 0, 3, ["copy", "extend", "clear"])
         coded_stage(out, q, seed, lambda e: e.get("afterclear", False) and not e["why"].startswith("cmp"))
         ic_walk_stage(out, q, seed, lambda e: e.get("afterclear", False) or e["why"] == "clear-panicked")
+        coded_columns_stage(out, q, seed, lambda e: e.get("afterclear", False) or e["why"] == "clear-panicked")
+        # long histories (allocations of hundreds of KiB), then clear, then the same pushes next to a brand-new twin
+        contract_trace_stage(out, ["C08"], q, seed, runs=1 if q else 10, long=9000 if q else 40000)
     elif prop == "C03":
         stack_stage(out, "flatstack", prop, stack_names(), 4 if q else 5, 1, 3 if q else 4, FS_OPS_ALL)
         ic_stage(out, "index-through-stack", prop, ["opt", "list", "vec"], "full", 4 if q else 5, 0)
@@ -903,6 +923,8 @@ def run_property(prop, tier, seed):
         huffman_random_stage(out, q, seed, lambda e: (e.get("copied", False) or e["why"].startswith("copy")) and not e["why"].startswith("cmp"),
                              "huffman-copies")
         ic_walk_stage(out, q, seed, lambda e: e.get("copied", False) or e["why"] == "copy-failed")
+        # a coded region nested in a fan-out region, bare and under a FlatStack: clone / clone_from, same continuation
+        coded_columns_stage(out, q, seed, lambda e: e.get("copied", False) or e["why"].startswith("copy-"))
         contract_trace_stage(out, ["C09"], q, seed)
     elif prop == "C16":
         names = subjects_where(cat, lambda e: e["caps"]["serde"] and not shape_has_f64(e["shape"]))
